@@ -500,7 +500,7 @@ def run(ctx):
     if ctx.replay_case:
         cases = [ctx.replay_case["detail"]["case"]]
     else:
-        k = 1 if tier == "quick" else 12
+        k = 3 if tier == "quick" else 24
         cases = ([gen_mdp_run(rng, tier) for _ in range(200 * k)]
                  + [gen_mdp_eval(rng, tier, deterministic=(i % 3 == 0)) for i in range(75 * k)]
                  + [gen_pomdp_run(rng, tier, probe=(i == 0)) for i in range(120 * k)]
